@@ -71,3 +71,15 @@ Definition is_drop (c : gchange) : bool :=
   | GModifyTable _ cs => existsb is_dropcol cs
   | _ => false
   end.
+
+(** the change list holds no RenameTable / RenameColumn change (the histories above are per NAME; a rename moves a
+    life-span to another name, see C18_generic_rename_carries_span) *)
+Definition is_rename_t (tc : gtchange) : bool := match tc with GRenameColumn _ _ => true | _ => false end.
+Definition is_rename (c : gchange) : bool :=
+  match c with
+  | GRenameTable _ _ => true
+  | GModifyTable _ cs => existsb is_rename_t cs
+  | _ => false
+  end.
+Definition rename_free (cl : list gschange) : Prop :=
+  forallb (fun c => negb (is_rename c)) (all_gchanges cl) = true.
